@@ -538,10 +538,27 @@ def r_snap(E):
                 f"{norm(n.targets[0])} is taken after the changes were applied: the totals are computed on demand from "
                 f"the current links, so the 'before' reference is the old values summed over the objects reachable "
                 f"*after* the edit", T.rel, n.lineno, f"ModelingUpdate.{mname}"))
-        par = getattr(n, "_parent", None)
-        guard = norm(par.test) if isinstance(par, ast.If) else ""
-        log = [x for x in (par.body if isinstance(par, ast.If) else []) if "all_changes" in norm(x)]
-        if not (isinstance(par, ast.If) and "changes_list" in guard and "system" in guard and log):
+        # same conditions as the change log: there are changes and they belong to a system
+        from ..astutil import path_conditions as _pc
+        from ..paths import path_formula as _pf, implies as _imp, parse as _parse
+        host = T.methods[mname]
+
+        def conds_of(stmt, fn_):
+            cs = list(_pc(stmt, fn_))
+            if fn_ is not init:      # a helper: add the conditions under which the constructor calls it
+                for st in ast.walk(init):
+                    if isinstance(st, ast.stmt) and not isinstance(st, (ast.If, ast.For, ast.Try, ast.While)) and any(
+                            _self_method_call(c) == fn_.name for c in _calls(st)):
+                        cs += list(_pc(st, init))
+                        break
+            return cs
+        f_snap = _pf(conds_of(n, host), host)
+        logs = [(x, f_) for f_ in {id(init): init, id(host): host}.values() for x in ast.walk(f_)
+                if isinstance(x, ast.stmt) and not isinstance(x, (ast.If, ast.For, ast.Try, ast.While, ast.FunctionDef))
+                and "all_changes" in norm(x)]
+        same_as_log = any(_imp(f_snap, _pf(conds_of(x, f_), f_)) and _imp(_pf(conds_of(x, f_), f_), f_snap)
+                          for x, f_ in logs)
+        if not (_imp(f_snap, _parse("self.changes_list and self.system")) and same_as_log):
             res.findings.append(Finding(
                 "R-SNAP", f"ModelingUpdate.__init__ :: {norm(n.targets[0])} guard",
                 f"{norm(n.targets[0])} is not taken under the same guard as the change log", T.rel, n.lineno,
